@@ -1077,6 +1077,10 @@ class _Replace(Array):
     def lower(self, args: LowerArgs) -> evaluable.Array:
         arg = self._arg.lower(args)
         replacements = {name: value.lower(args.without_points) for name, value in self._replacements.items()}
+        # The replacements are lowered outside the loops of `arg` (an integral
+        # replacing an argument of another integral uses the same loop id):
+        # rename clashing loops before substituting.
+        replacements = evaluable.disjoint_loop_ids(arg, replacements)
         return evaluable.replace_arguments(arg, replacements)
 
 
